@@ -32,7 +32,7 @@ SPECS['C04'] = {
     'technique': 'explicit-state enumeration of every streaming context\'s (fill, length) automaton and of the length/IV/tag/AAD grids on the real code; reference model = OpenSSL + generic mode references validated on AES against OpenSSL',
     'claim': 'For every streaming cipher context every (buffer fill, update length) pair, in place and with guarded exact-size outputs, and for the one-shot calls every length/IV-length/tag-length/AAD-length combination of the stated grids, the bytes equal the independent reference and decrypt(encrypt) is the identity; exhaustive over that alphabet only.',
     'trusted': 'OpenSSL 3.0 (SM4-ECB/CBC/CTR/OFB/CFB, AES all modes, ChaCha20); ref/modes_ref.c for SM4-GCM/CCM/XTS/CFB-s/CTR32 (self-tested on AES vs OpenSSL on the same grids); ZUC: specification known answers and the bit-level EEA3/EIA3 definition only (no independent ZUC core); GB/T XTS tweak doubling pinned by the reference implementation of GHASH-style doubling',
-    'rule': 'streams: 14 SM4/ZUC streaming contexts x 3 keys x every (fill in [0,unit), len in [0,50)) two-step feeding + finish, NULL-output size query before every call, canary-guarded output of exactly the reported size, in-place subset; CFB all s=1..16, XTS data units {16,17,31,32,48}, GCM tag 12..16; one-shot: 63 lengths x 3 keys x {CBC, CTR/CTR32 with 7 wrap counters, OFB, CFB s=1..16, CBC-MAC all cuts, XTS}; GCM: IV length 0..65 x AAD 0..33,4096 x 8 message lengths x tag lengths; CCM: nonce 6..14 x tag 2..18 x 11 AAD lengths (incl. 0xfeff/0xff00/0xff01) x 12 lengths (to 65537); AES-128/192/256 block+CBC, AES-CTR/GCM; ChaCha20 counters; ZUC-128/256 structure, specification test set 4 incl. z2000, 2^16-word agreement of keyword / bulk keystream / byte encryptor (one-shot and streamed), EEA3/EIA3 bit lengths 1..300; GCM counter wrap: 16-byte IVs constructed for 9 chosen J0 tails x 3 keys x {SM4, AES}. distinct = parameter tuple; non-trivial = a definite reference value exists.',
+    'rule': 'streams: 14 SM4/ZUC streaming contexts x 3 keys x every (fill in [0,unit), len in [0,50)) two-step feeding + finish, NULL-output size query before every call, canary-guarded output of exactly the reported size, in-place subset; CFB all s=1..16, XTS data units {16,17,31,32,48}, GCM tag 12..16; one-shot: 63 lengths x 3 keys x {CBC, CTR/CTR32 with 7 wrap counters, OFB, CFB s=1..16, CBC-MAC all cuts, XTS}; GCM: IV length 0..65 x AAD 0..33,4096 x 8 message lengths x tag lengths; CCM: nonce 6..14 x tag 2..18 x 11 AAD lengths (incl. 0xfeff/0xff00/0xff01) x 12 lengths (to 65537); AES-128/192/256 block+CBC, AES-CTR/GCM; ChaCha20 counters; ZUC-128/256 structure, specification test set 4 incl. z2000, 2^16-word agreement of keyword / bulk keystream / byte encryptor (one-shot and streamed), EEA3/EIA3 bit lengths 1..300; GCM counter wrap: 16-byte IVs constructed for 9 chosen J0 tails x 3 keys x {SM4, AES}. distinct = parameter tuple; non-trivial = a definite reference value exists. One-shot GCM (SM4, AES) and CCM also in place, both directions; the constructed-J0 counter-wrap IVs also through the streaming GCM interface in 8 chunkings.',
     'bound': {'quick': 'builds fast + small(subset by deadline)', 'thorough': 'builds fast, asan, small, aesni, avx2; full CCM grid for all 3 keys'},
     'assumptions': ['3 keys / IVs per cipher, one plaintext pattern', 'OpenSSL correctness'],
     'quick': [J('c04', 'fast', srcs=MREF), J('c04', 'asan', srcs=MREF, shards=8, deadline=100), J('c04', 'small', srcs=MREF, deadline=100), J('c04', 'aesni', srcs=MREF, cpu=['aes'], deadline=100), J('c04', 'avx2', srcs=MREF, cpu=['avx2'], deadline=100)],
@@ -45,7 +45,7 @@ SPECS['C05'] = {
     'technique': 'exhaustive single-fault enumeration (every bit of nonce/AAD/ciphertext/tag, every truncation, one-byte extensions) x every 2-cut chunking of the streaming decryptors, on the real code',
     'claim': 'For every sealed message of the grid, every single-bit modification of nonce, AAD, ciphertext and tag, every truncation and the one-byte extensions are reported as failure by the one-shot call or by *_decrypt_finish, for every way of splitting the stream in two; the untouched message opens in every chunking.',
     'trusted': 'the library\'s own encryptors produce the sealed messages (their conformance is C04); exact-size heap inputs + ASan catch over-reads',
-    'rule': 'big-aad block: AAD lengths {0xfeff,0xff00,0xff01,0xffff,0x10000,0x10001} x 4 schemes (untouched, 64 end-of-AAD bit flips, +-1 byte, length-prefix confusion); schemes {SM4-GCM, AES-GCM, SM4-CCM one-shot; SM4-GCM, SM4-CBC+SM3-HMAC, SM4-CTR+SM3-HMAC streaming} x message lengths {0,1,17} (thorough {0,1,15,16,17,33}) x AAD {0,1,20,15,16,17,32} x tag lengths (quick 12,16 / CCM 4,10,16; thorough all) x nonce lengths (thorough); per sealed message: all bit flips of every field, all prefixes, 3 one-byte extensions at both ends, AAD +-1 byte; streaming: every 2-cut. distinct = (scheme, parameters, fault, cut); every fault is non-trivial (expected verdict: reject).',
+    'rule': 'big-aad block: AAD lengths {0xfeff,0xff00,0xff01,0xffff,0x10000,0x10001} x 4 schemes (untouched, 64 end-of-AAD bit flips, +-1 byte, length-prefix confusion); schemes {SM4-GCM, AES-GCM, SM4-CCM one-shot; SM4-GCM, SM4-CBC+SM3-HMAC, SM4-CTR+SM3-HMAC streaming} x message lengths {0,1,17} (thorough {0,1,15,16,17,33}) x AAD {0,1,20,15,16,17,32} x tag lengths (quick 12,16 / CCM 4,10,16; thorough all) x nonce lengths (thorough); per sealed message: all bit flips of every field, all prefixes, 3 one-byte extensions at both ends, AAD +-1 byte; streaming: every 2-cut. distinct = (scheme, parameters, fault, cut); every fault is non-trivial (expected verdict: reject). In-place one-shot opens; a sentinel in *outlen of every streaming update (a successful call must set it); block command-line-tools: the three AEAD front ends of tools/ compiled into the driver, file sizes around the multiples of their 4096-octet buffer, round trip and 8 single-bit alterations of the sealed file.',
     'bound': {'quick': '1 fault, 2 chunks', 'thorough': '1 fault, 2 chunks, full parameter grid'},
     'assumptions': ['one key/nonce/plaintext per scheme', 'multi-bit forgeries are out of scope'],
     'quick': [J('c05', 'asan', srcs=MREF), J('c05', 'fast', srcs=MREF)],
@@ -111,7 +111,7 @@ SPECS['C14'] = {
     'technique': 'small-scope exhaustive enumeration: per-type value grids (encode/decode), every byte string up to length 2 (6 over a boundary alphabet) into each primitive decoder, base64/hex/PEM automata in every (fill,len) pair and 2-cut, capacity edges, one-edit password neighbourhood; oracle = harness strict-DER reader, reference codecs and a civil-calendar function written for the harness',
     'claim': 'Within the enumerated spaces every encoder output decodes to the same value consuming exactly its bytes, dry-run length equals bytes written (canary-checked), every input a primitive decoder accepts re-encodes to the identical bytes and is strict DER, composite objects are strict DER and round-trip, text codecs invert for every chunking, refuse malformed text and stay within the declared capacity, and no one-edit neighbour of the password opens an encrypted key.',
     'trusted': 'harness der.h strict reader/writer, reference base64, Hinnant civil-from-days calendar algorithm; OpenSSL not needed here',
-    'rule': 'values: lengths and ints 0..70000 + 2^k, 2^k+-1; INTEGER byte strings length 1..33 x leading {00,01,7f,80,ff} x second byte {00,7f,80}; BOOLEAN; BIT STRING 0..40 bits; OIDs 2..33 arcs x 11 arc values; UTF-8 strings of 1..3 code points over 11 scalar-value boundaries + 11 invalid sequences; all 256 bytes as Printable/IA5 characters; every day 1970..9999 (quick: every day to 2051, then every 37th, last 400) at seconds {0,1,86399} + 11 impossible dates. decoders: 14 decoders x every string of length<=2 (and 3-4 after short lengths) over all bytes, length 3..6 over {00,01,02,7f,80,81,82,84,ff,tag}. text: base64 encoder (fill 0..47 x len 0..100), decoder n 0..200 x every 2-cut, 6 character substitutions at every position, 4095/4096; hex 0..200 both cases, odd lengths, every byte as a digit; PEM 3 capacities x {cap-1,cap,cap+1,2cap} x 3 newline styles, malformed bodies. composite: 5 keys x {ECPrivateKey, PKCS#8, SPKI (+ every 7th single-byte XOR of its header), PEM, encrypted PKCS#8 with ~30 wrong passwords}, algorithm identifiers, 32 name shapes. distinct = value / byte string.',
+    'rule': 'values: lengths and ints 0..70000 + 2^k, 2^k+-1; INTEGER byte strings length 1..33 x leading {00,01,7f,80,ff} x second byte {00,7f,80}; BOOLEAN; BIT STRING 0..40 bits; OIDs 2..33 arcs x 11 arc values; UTF-8 strings of 1..3 code points over 11 scalar-value boundaries + 11 invalid sequences; all 256 bytes as Printable/IA5 characters; every day 1970..9999 (quick: every day to 2051, then every 37th, last 400) at seconds {0,1,86399} + 11 impossible dates. decoders: 14 decoders x every string of length<=2 (and 3-4 after short lengths) over all bytes, length 3..6 over {00,01,02,7f,80,81,82,84,ff,tag}. text: base64 encoder (fill 0..47 x len 0..100), decoder n 0..200 x every 2-cut, 6 character substitutions at every position, 4095/4096; hex 0..200 both cases, odd lengths, every byte as a digit; PEM 3 capacities x {cap-1,cap,cap+1,2cap} x 3 newline styles, malformed bodies. composite: 5 keys x {ECPrivateKey, PKCS#8, SPKI (+ every 7th single-byte XOR of its header), PEM, encrypted PKCS#8 with ~30 wrong passwords}, algorithm identifiers, 32 name shapes. distinct = value / byte string. Block signatures-and-ciphertexts (SM2/SM9 signature and ciphertext: every bit change, members re-written with 33/34 octets, redundant zero, negative, empty, truncated, trailing octet; accepted => re-encodes identically); block reused-destination (21 key readers, three prior states of the destination object).',
     'bound': {'quick': 'calendar thinned after 2051', 'thorough': 'every day to 9999-12-31; encrypted PKCS#8 for all 5 keys'},
     'assumptions': ['strings longer than 3 characters, big integers > 33 bytes, passwords beyond one edit are not covered'],
     'quick': [J('c14', 'fast'), J('c14', 'asan', deadline=120)],
@@ -162,7 +162,7 @@ TLSSRC = ['harness/venv.c']
 PBWRAP = ['-Wl,--wrap=sm3_pbkdf2', '-lpthread', '-ldl', '-lm']
 PGWRAP = ['-Wl,--wrap=sm3_pbkdf2', '-Wl,--wrap=sm4_gcm_encrypt', '-lpthread', '-ldl', '-lm']
 GCMWRAP2 = ['-Wl,--wrap=sm4_gcm_encrypt', '-lpthread', '-ldl', '-lm']
-GCMWRAP = ['-Wl,--wrap=sm4_gcm_encrypt', '-lcrypto', '-lpthread', '-ldl', '-lm']
+GCMWRAP = ['-Wl,--wrap=sm4_gcm_encrypt', '-Wl,--wrap=tls_record_encrypt', '-lcrypto', '-lpthread', '-ldl', '-lm']
 
 SPECS['C06'] = {
     'level': 'fault_enumeration',
@@ -230,7 +230,7 @@ SPECS['C09'] = {
     'technique': 'exhaustive enumeration of (a) credential-defect configurations of the peer and (b) protocol deviations of a puppet prover (the library\'s own endpoint with link-time filters that leave out any one handshake message consistently, or send an empty certificate list) against the real verifying endpoint over vnet, one implementation run per configuration; invariant: verifier completed => credentials authentic and every authentication message seen',
     'claim': 'For 3 protocols x {client verifies server, server verifies client}: with every defective peer credential of the menu (untrusted root, expired, not yet valid, issuer or second-level issuer without basicConstraints / cA=FALSE, flipped certificate signature, sign key not matching the certificate, TLCP encryption key not matching / encryption certificate forged / expired, chain in wrong order, empty chain), at chain depths 1..3, and with a prover that omits any single one of its handshake messages (Certificate, ServerKeyExchange, CertificateVerify, ClientKeyExchange, Finished, ...) or presents an empty certificate list while keeping its own transcript consistent, and with a prover that lacks the private key and additionally rewrites any one of the first 12 bytes (algorithm identifier, lengths, start of the signature) of its signed message, the verifying endpoint never reports a completed handshake; with honest credentials of depth 1..3 both sides complete with equal secrets.',
     'trusted': 'the peer is the real opposite endpoint with TLS_CTX filled directly (bypassing the key/certificate match check of the loader); the puppet filters sit on tls_record_send / sm3_update / digest_update / tls_seq_num_incr (link-time --wrap)',
-    'rule': 'c09: 3 protocols x 2 verifier roles x 27 credential configurations (3 honest + 24 defective); c09b: 3 protocols x 2 roles x every message the prover sends (4-7 per flight set) x {omit, empty certificate list}; keyless prover (genuine chain, unrelated signing key) x its CertificateVerify / ServerKeyExchange x {untouched, 12 header offsets x 9 substitution values altered consistently}; distinct = configuration; states = configurations run, transitions = endpoint runs.',
+    'rule': 'c09: 3 protocols x 2 verifier roles x 27 credential configurations (3 honest + 24 defective); c09b: 3 protocols x 2 roles x every message the prover sends (4-7 per flight set) x {omit, empty certificate list}; keyless prover (genuine chain, unrelated signing key) x its CertificateVerify / ServerKeyExchange x {untouched, 12 header offsets x 9 substitution values altered consistently}; distinct = configuration; states = configurations run, transitions = endpoint runs. c09b oversized-chain: puppet under an untrusted root appends 2..12 entries to its Certificate message (TLCP / TLS 1.2); invariant in the endpoint task: trust anchors, own chain, own keys in the connection object unchanged after the handshake. c09: impostor certificate shaped like the trust anchor.',
     'bound': {'quick': 'whole menu, 1 protocol deviation', 'thorough': 'whole menu (+ asan)'},
     'assumptions': ['two simultaneous protocol deviations of the prover and reordered messages are not enumerated (C10 covers dropped / injected / swapped records by a network attacker)'],
     'quick': [J('c09', 'fast', srcs=TLSSRC), J('c09b', 'fast', srcs=TLSSRC, libs=PUPWRAP)],
@@ -264,7 +264,7 @@ SPECS['C18'] = {
     'budget': {'quick': 170, 'thorough': 1500},
 }
 
-WRAPS = ['-Wl,--wrap=tls_prf', '-Wl,--wrap=hkdf_extract', '-Wl,--wrap=hkdf_expand', '-Wl,--wrap=sm3_pbkdf2', '-Wl,--wrap=sm4_gcm_encrypt', '-lcrypto', '-lpthread', '-ldl', '-lm']
+WRAPS = ['-Wl,--wrap=tls_prf', '-Wl,--wrap=hkdf_extract', '-Wl,--wrap=hkdf_expand', '-Wl,--wrap=sm3_pbkdf2', '-Wl,--wrap=sm4_gcm_encrypt', '-Wl,--wrap=tls_record_encrypt', '-lcrypto', '-lpthread', '-ldl', '-lm']
 SPECS['C19'] = {
     'level': 'fault_enumeration',
     'technique': 'exhaustive enumeration of handshake executions (honest, every credential defect, per-record tampering, every entropy-draw failure on both roles) and a list of secret-handling API sequences incl. their failure modes; fd 1 and fd 2 captured per execution and searched for every secret of that execution',
@@ -285,7 +285,7 @@ SPECS['C20'] = {
     'technique': 'stateless model checking of the real code under a controlled scheduler: every load/store of the (TSan-instrumented, runtime-less) library reports to the harness, a footprint pass finds conflict granules (written by one task, touched by another / writable statics), and all schedules with at most k preemptions at task start, end, blocking and conflict-granule accesses are enumerated with a fixpoint on newly found conflicts; plus a separate free-running pass of the same task bodies under the real ThreadSanitizer',
     'claim': 'For every unordered pair (thorough: also triples of the six cheapest) of the 15 workload operations, each on its own objects and its own entropy stream, every schedule within the preemption bound gives each task exactly the outputs it produces alone; no memory granule is written by one task and accessed by another and no library static is written at all (conflict set empty => no data race on library state in any interleaving of these tasks); the free-running ThreadSanitizer pass reports no race and the same outputs.',
     'trusted': 'clang -fsanitize=thread instrumentation reports every library load/store (memcpy/memset/memmove through --wrap with -fno-builtin); sequential consistency; the hand-off scheduler; libc internals (stdio locks) are outside',
-    'rule': 'operations: hash (SM3, SHA-256, SHA-512), HMAC+PBKDF2, SM4 CBC/CTR/GCM, ZUC, SM2 keygen+sign+verify, SM2 encrypt+ECDH, X.509 sign+verify (+error path), CMS sign+verify+encrypt+decrypt, TLS record protect/unprotect (CBC, GCM), malformed-input decoding (error path), SM9 sign+verify, PKCS#8 encrypt/decrypt, misc-interfaces (compressed points, key containers, base64, hex, times, OIDs, CRL / request signing, CCM / OFB / CFB / CBC-MAC, ZUC-256, SHA-1 / SHA-384, HKDF, SM9 encryption and exchange), names-and-printers (every `const char *name(int)` helper of the headers - table generated by bin/vgen_c20 - over 340 identifiers in an instance-dependent order, certificate / CRL / request / CMS / key / OID printers into a per-task memory stream), TLCP / TLS 1.2 / TLS 1.3 handshake (client task + server task over a private pipe pair). every execution in a forked child (pristine statics); distinct = (combination, schedule prefix); states = choice points + schedules, transitions = choice points.',
+    'rule': 'operations: hash (SM3, SHA-256, SHA-512), HMAC+PBKDF2, SM4 CBC/CTR/GCM, ZUC, SM2 keygen+sign+verify, SM2 encrypt+ECDH, X.509 sign+verify (+error path), CMS sign+verify+encrypt+decrypt, TLS record protect/unprotect (CBC, GCM), malformed-input decoding (error path), SM9 sign+verify, PKCS#8 encrypt/decrypt, misc-interfaces (compressed points, key containers, base64, hex, times, OIDs, CRL / request signing, CCM / OFB / CFB / CBC-MAC, ZUC-256, SHA-1 / SHA-384, HKDF, SM9 encryption and exchange), names-and-printers (every `const char *name(int)` helper of the headers - table generated by bin/vgen_c20 - over 340 identifiers in an instance-dependent order, certificate / CRL / request / CMS / key / OID printers into a per-task memory stream), TLCP / TLS 1.2 / TLS 1.3 handshake (client task + server task over a private pipe pair). every execution in a forked child (pristine statics); distinct = (combination, schedule prefix); states = choice points + schedules, transitions = choice points. Operations cms-envelop and three refused-handshake pairs; close() interposed: the library must not close a pair descriptor.',
     'bound': {'quick': 'pairs, preemptions <= 1 (0 for two concurrent handshakes = 4 tasks: all run-to-block schedules)', 'thorough': 'pairs with preemptions <= 2 (<= 1 when a handshake is involved), triples of cheap operations with preemptions <= 2'},
     'assumptions': ['at most 3 (4 with handshake pairs) tasks in the exhaustive part; 16-thread behaviour only through the free-running pass', 'weak-memory reorderings beyond what ThreadSanitizer models are out of scope'],
     'quick': [J('c20', 'vsched', srcs=TLSSRC, libs=VSWRAP, gen='vgen_c20', deadline=150), J('c20', 'tsan', srcs=TLSSRC, libs=['-lpthread', '-ldl', '-lm'], gen='vgen_c20', deadline=150)],
